@@ -41,11 +41,16 @@ def gen_case(rng, i, tier):
     if i % 8 in (3, 6):
         # shaped classes shared with C10: two alternative roads that rejoin under a sparse trace (a state reached from two
         # predecessors at the same non-emitting depth, no ties), and the mirror-symmetric merge with a loop (exact ties)
-        from .C10 import gen_diamond_case, gen_mirror_case
-        case = gen_diamond_case(rng) if i % 8 == 3 else gen_mirror_case(rng)
+        from .C10 import gen_diamond_case, gen_mirror_case, gen_fork_case
+        if i % 8 == 3:
+            case, shaped = gen_diamond_case(rng), "diamond"
+        elif i % 16 == 6:
+            case, shaped = gen_mirror_case(rng), "mirror"
+        else:
+            case, shaped = gen_fork_case(rng), "fork"   # exact ties at the pruning boundary (symmetric fork, width set)
         case["dyadic"] = False
         case["tseed"] = rng.randint(0, 10 ** 9)
-        case["shaped"] = "diamond" if i % 8 == 3 else "mirror"
+        case["shaped"] = shaped
         return case
     if i % 16 == 9:
         # SqliteMap with parallel roads linked (connect_parallelroads): axis-parallel roads on a dyadic grid / chain, with
@@ -98,7 +103,7 @@ def gen_case(rng, i, tier):
     dyadic = rng.random() < 0.5
     kinds = ("grid", "chain_dyadic") if dyadic else ("random", "chain", "grid")
     case = mcase.gen_mcase(rng, width="maybe", tighten_p=0.15, sparse_p=0.0 if dyadic else 0.3, max_obs=8, kinds=kinds,
-                           labels=("int", "gap"), hostile=True)
+                           labels=("int", "intperm", "intperm", "gap"), hostile=True)
     if dyadic:
         # dyadic trace so that translation is exact
         case["trace"] = [[round(p[0] * 8) / 8, round(p[1] * 8) / 8] for p in case["trace"]]
